@@ -71,7 +71,7 @@ func runC05Sync(c *core.Ctx) *core.Violation {
 	conf.Options.Parallel = 1 + t.Choose(4)
 	rdb, recs := handoffRDB(c)
 	o0 := int64([]int{0, 1, 41, 123456789, 8589934592}[t.Choose(5)])
-	cmds, stream := GenStream(t, StreamOpts{MaxCmds: 12, DBs: 2, StartDB: -1, NoScripts: true})
+	cmds, stream := GenStream(t, StreamOpts{MaxCmds: 12, DBs: 2, StartDB: -1, NoScripts: true, BigValues: t.Choose(3) == 2})
 	f := FilterCfg{TargetDB: -1}
 	want := ExpectedForward(cmds, f)
 	// timing of the command bytes relative to the RDB: with it (same write), right after, or later
